@@ -11,9 +11,11 @@ def run(run):
     skeleton.apply(run, 'C16')
     runner.load_contracts()
     components.ast_functions(run, FUNCS, run.tier, rt_quick=25, rt_thorough=150)
-    hc.solve_scenarios(run, 'C16', [('no_value', (run.seed + i,)) for i in range(4 if run.tier == 'quick' else 20)] + [('invalid_options', (run.seed,))],
+    hc.solve_scenarios(run, 'C16', [('no_value', (run.seed + i,)) for i in range(4 if run.tier == 'quick' else 20)] + [('invalid_options', (run.seed,))] +
+                       [('resolve_none', (run.seed + i,)) for i in range(2)],
                        'rt-solve-no-value', 'unbounded and infeasible models solved in both return modes with two solvers: solve returns None and every accessor '
-                       '(leaf / derived point, expression, objective, constraint value and dual) raises ValueError; invalid option values raise ValueError')
+                       '(leaf / derived point, expression, objective, constraint value and dual) raises ValueError; also after a successful solve followed by one without value '
+                       '(derived point, expression, constraint, LMI); invalid option values of solve and of the primitive steps raise ValueError', also=('C13',))
     run.trust('pyvc AST engine + z3 5.1 / cvc5 1.0.3')
     run.assume('numpy 1-D arrays are mathematical vectors (abstract sort Vec with zeros / + / scalar * / dot / dim): assumed external algebra',
                'cvxpy leaves variable values at None when the problem is not solved (assumed external contract)')
